@@ -453,6 +453,67 @@ func After(d time.Duration) <-chan time.Time {
 	return ch
 }
 
+// Timer stands in for time.Timer (time.NewTimer, Stop, Reset, the channel C) on the virtual clock.
+type Timer struct {
+	C      <-chan time.Time
+	ch     chan time.Time
+	native *time.Timer
+	tm     *timer
+}
+
+func NewTimer(d time.Duration) *Timer {
+	s := active()
+	if s == nil {
+		nt := time.NewTimer(d / time.Duration(NativeTimeScale))
+		return &Timer{C: nt.C, native: nt}
+	}
+	ch := make(chan time.Time, 1)
+	t := &Timer{C: ch, ch: ch}
+	t.arm(s, d)
+	return t
+}
+
+func (t *Timer) arm(s *Sched, d time.Duration) {
+	st := s.chanOf(t.ch)
+	s.tseq++
+	s.running.h = mix(s.running.h, 'F', uint64(s.now+d))
+	st.h = s.running.h
+	s.updChan(st)
+	t.tm = &timer{deadline: s.now + d, ch: st, seq: s.tseq}
+	s.timers = append(s.timers, t.tm)
+}
+
+// Stop prevents the timer from firing; it reports whether the timer was still pending.
+func (t *Timer) Stop() bool {
+	if t.native != nil {
+		return t.native.Stop()
+	}
+	s := active()
+	if s == nil {
+		return false
+	}
+	for i, tm := range s.timers {
+		if tm == t.tm {
+			s.timers = append(s.timers[:i:i], s.timers[i+1:]...)
+			s.running.h = mix(s.running.h, 'f', uint64(tm.deadline))
+			return true
+		}
+	}
+	return false
+}
+
+// Reset re-arms the timer for d from now; it reports whether the timer had been pending.
+func (t *Timer) Reset(d time.Duration) bool {
+	if t.native != nil {
+		return t.native.Reset(d / time.Duration(NativeTimeScale))
+	}
+	was := t.Stop()
+	if s := active(); s != nil {
+		t.arm(s, d)
+	}
+	return was
+}
+
 func Sleep(d time.Duration) {
 	s := active()
 	if s == nil {
